@@ -294,6 +294,8 @@ def run(ctx):
     for wit, fm in (("WitnessRoundTrip", FORMATS), ("WitnessUnused", FORMATS), ("WitnessUpgradedShared", ["pack-0.92"])):
         tlc.check(ctx, "Layouts", cfg_text=cfg(2, fm, "INVARIANT %s\n" % wit), expect_violation=wit, label="witness " + wit, workers=4)
     nodes, edges, inits, res = tlc.graph(ctx, "Layouts", cfg_text=cfg(steps, FORMATS), label="state graph", workers=8)
+    # TLC's workers dump the graph in a run-dependent order: fix it, so that the seed alone decides what is replayed
+    edges, inits = sorted(edges), sorted(inits)
     paths = [p for p in tlc.transition_cover(nodes, edges, inits, rng=ctx.rng) if len(p) > 1]
     ctx.cov["graph"] = {"nodes": len(nodes), "edges": len(edges), "initial_layouts": len(inits), "cover_paths": len(paths)}
     parsed = {}
